@@ -30,7 +30,11 @@ TInit == Init /\ l = 1 /\ viol = {}
 UnsealGuards(e) == {<<"G_C16_Serializable", e.ok200 = 1 /\ e.cas = e.casOnce>>}
 TNext == /\ l <= Len(TraceLog)
          /\ LET e == TraceLog[l]
-                bad == IF e.ev = "UnsealRound" THEN Failed(UnsealGuards(e)) ELSE IF e.ev = "Soak" THEN {} ELSE Failed(Guards(e))
+                bad == IF e.ev = "UnsealRound" THEN Failed(UnsealGuards(e)) ELSE IF e.ev = "Soak" THEN {}
+                       \* degraded mode (second request served from the offline cache): what it may or may not persist is C15's
+                       \* business; here: an acknowledged disable / delete stays
+                       ELSE IF e.ev = "Degraded" THEN {g \in Failed(Guards(e)) : g \in {"G_C16_NotUndone", "G_C10_NoPanic"}}
+                       ELSE Failed(Guards(e))
             IN viol' = IF bad = {} THEN viol ELSE viol \cup {<<l, e.ev, bad>>}
          /\ l' = l + 1 /\ UNCHANGED vars
 TSpec == TInit /\ [][TNext]_<<vars, l, viol>>
